@@ -300,6 +300,7 @@ func (h *half) PendingWrite() int {
 	}
 	return len(h.wr.buf) - h.wr.off
 }
+func (h *half) Total() int        { h.mu.Lock(); defer h.mu.Unlock(); return h.total }
 func (h *half) Queued() int       { h.mu.Lock(); defer h.mu.Unlock(); return len(h.queue) }
 func (h *half) ReadPending() bool { h.mu.Lock(); defer h.mu.Unlock(); return h.rd != nil }
 func (h *half) Concurrent() (w, r bool) {
